@@ -42,6 +42,8 @@ CONF = {
         {"module": "MC_Gang", "cfg": "MC_Gang_StrictOnce.cfg", "timeout": 600},
         {"module": "MC_Gang", "cfg": "MC_Gang_StrictWait.cfg", "timeout": 600},
         {"module": "MC_Gang", "cfg": "MC_Gang_LooseWaitRun.cfg", "timeout": 600},
+        # pod-group updates (min / mode / policy / gang group of g1 change while members are in flight)
+        {"module": "MC_Gang", "cfg": "MC_Gang_PgUpdate.cfg", "timeout": 600},
     ],
     "gen": [
         {"module": "Gen_Gang", "cfg": "Gen_Gang_StrictOnce.cfg", "timeout": 600, "sample": {"quick": 3, "thorough": 1}},
@@ -55,7 +57,9 @@ CONF = {
     "trace": {"module": "GangTrace", "cfg": "Trace.cfg"},
     "signature": sig,
     "assumptions": [
-        "gangs declared by pod annotations (no PodGroup CRD); network-topology placement and preemption are out of the model",
+        "gangs declared by pod annotations or (a third of the random segments) by PodGroup objects that exist before their pods and are "
+        "updated during the run (min member, mode; match policy and gang group only in segments without the once-satisfied policy, whose mark "
+        "belongs to a gang GROUP); PodGroup deletion, network-topology placement and preemption are out of the model",
         "histories are whole API calls of the informer goroutine and the scheduling / binding goroutines in any legal order "
         "(an object carrying a node name is never followed by one without; a stale update may follow PostBind); "
         "interleavings inside one call are explored only in the TLA+ model",
